@@ -61,6 +61,7 @@ ALPHABET = {
     "edt+ext": [("F", 16, EDT6), ("F", 16, FFT2), ("B", 7)],
     "edt+plain": [("F", 16, EDT6), ("F", 16, OFF1)],
     "ext-without-edt": [("F", 16, FFT2)],
+    "edt-alone": [("F", 16, EDT6)],             # ... followed by whatever the history puts next (a 24-bit frame, a backward frame, ...)
     "edt+cfg-twice": [("F", 16, EDT6), ("F", 16, SDC2), ("F", 16, SDC2)],
     "edt+cfg-once": [("F", 16, EDT6), ("F", 16, SDC2)],
     "edt+cfg+backward": [("F", 16, EDT6), ("F", 16, SDC2), ("B", 3)],
@@ -835,7 +836,7 @@ def shards(tier):
     for drv in ("luba", "sci"):
         n = 3 if tier == "quick" else 4
         for L in range(1, n + 1):
-            hs = list(itertools.product(KINDS if L <= 2 else ["plain", "edt+ext", "edt+plain", "unknown16", "ext-without-edt", "event-devinst", "unknown24", "stray-backward", "cmd24+answer"], repeat=L))
+            hs = list(itertools.product(KINDS if L <= 2 else ["plain", "edt+ext", "edt+plain", "unknown16", "ext-without-edt", "event-devinst", "unknown24", "stray-backward", "cmd24+answer", "edt-alone"], repeat=L))
             for i in range(0, len(hs), 150):
                 out.append(("serial", drv, hs[i:i + 150], 0, 0, False))
         out.append(("serial", drv, sel + [("unknown16", "plain"), ("edt+plain", "unknown16")], 2, 2 if tier == "quick" else 3, False))
